@@ -329,6 +329,9 @@ class SsbGraphMinimizer:
     def build_and_group_switch_cases(self) -> None:
         logger.debug("Building switches...")
         for i, g in enumerate(self._graphs):
+            # The graph was changed since the last lookups (branches were grouped and inverted) and the cache is keyed by
+            # edge indices and the id() of the graph, which may also be the recycled id of a graph of an earlier call.
+            find_first_common_next_vertex_in_edges__clear_cache(g)
             vs_to_delete: set[Vertex | int] = set()
             current_switch_id = -1
             for v in g.vs:
